@@ -29,6 +29,8 @@
 
 static sb_error_t sb_i_trajectory_builder_scale_coordinate(
     sb_trajectory_builder_t* builder, float coordinate, int16_t* scaled_coordinate);
+static sb_error_t sb_i_trajectory_builder_validate_position(
+    sb_trajectory_builder_t* builder, sb_vector3_with_yaw_t position);
 static sb_error_t sb_i_trajectory_builder_write_angle(
     sb_trajectory_builder_t* builder, size_t* offset, float angle);
 static sb_error_t sb_i_trajectory_builder_write_coordinate(
@@ -88,6 +90,10 @@ sb_error_t sb_trajectory_builder_set_start_position(
         return SB_FAILURE;
     }
 
+    /* Validate all the coordinates before writing anything so a failed call
+     * leaves the builder intact */
+    SB_CHECK(sb_i_trajectory_builder_validate_position(builder, start));
+
     size_t offset = 1;
 
     SB_CHECK(sb_i_trajectory_builder_write_coordinate(builder, &offset, start.x));
@@ -111,6 +117,11 @@ sb_error_t sb_trajectory_builder_append_line(
     sb_trajectory_builder_t* builder, const sb_vector3_with_yaw_t target,
     uint32_t duration_msec)
 {
+    /* Validate the target before appending anything so a failed call leaves
+     * the builder intact; intermediate points of a split segment lie between
+     * two representable points so they are representable as well */
+    SB_CHECK(sb_i_trajectory_builder_validate_position(builder, target));
+
     if (duration_msec > MAX_DURATION_MSEC) {
         /* If duration_msec > 60000, split the segment into multiple sub-segments */
         sb_vector3_with_yaw_t midpoint;
@@ -224,6 +235,18 @@ static sb_error_t sb_i_trajectory_builder_scale_coordinate(
         *scaled_coordinate = scaled;
         return SB_SUCCESS;
     }
+}
+
+static sb_error_t sb_i_trajectory_builder_validate_position(
+    sb_trajectory_builder_t* builder, sb_vector3_with_yaw_t position)
+{
+    int16_t scaled;
+
+    SB_CHECK(sb_i_trajectory_builder_scale_coordinate(builder, position.x, &scaled));
+    SB_CHECK(sb_i_trajectory_builder_scale_coordinate(builder, position.y, &scaled));
+    SB_CHECK(sb_i_trajectory_builder_scale_coordinate(builder, position.z, &scaled));
+
+    return SB_SUCCESS;
 }
 
 static sb_error_t sb_i_trajectory_builder_write_angle(
